@@ -50,6 +50,10 @@ def gen_cases(ctx):
         yield dict(spec=spec, k=rng.choice([1, 2, 3]), cfg=cfg, ciq=rng.random() < 0.15, seed=rng.randrange(1 << 30), warm=warm)
 
 
+def _degenerate(spec):
+    return {"batch_member_repeated_eigenvalue"} if common.batch_member_degenerate(spec) else set()
+
+
 def run_case(case, ctx):
     from linear_operator import settings
 
@@ -170,7 +174,7 @@ def run_case(case, ctx):
             return
         if float(s0.abs().max()) != 0.0 or not torch.isfinite(s0).all():
             ctx.fail("zero_noise_gives_zero", "value", detail="samples for all-zero base noise are not zero",
-                     **dict(kw, tags=set(kw["tags"]) | ({"path:lanczos"} if rec.count("lanczos.end") > 0 else set())))
+                     **dict(kw, tags=set(kw["tags"]) | ({"path:lanczos"} | _degenerate(spec) if rec.count("lanczos.end") > 0 else set())))
             return
         cols = []
         for j in range(tot):
@@ -191,7 +195,7 @@ def run_case(case, ctx):
     ctx.stat("path:" + pathk)
     key = f"{spec['cls']}|{pathk}|k{k}|{settings_key(cfg)}|{spec['dtype']}|b{len(batch)}"
     if not torch.isfinite(M).all():
-        ctx.fail("finite", "value", detail="non-finite samples", **dict(kw, tags=set(tags) | {"path:" + pathk}))
+        ctx.fail("finite", "value", detail="non-finite samples", **dict(kw, tags=set(tags) | {"path:" + pathk} | (_degenerate(spec) if used_lanczos else set())))
         return
     # relative to the matrix, but never below 1e-2: the factorizations add jitter of 1e-8 .. 1e-4 of the *factors'* scale, so a matrix
     # that is numerically zero next to its own building blocks (an interpolation that cancels a rank-1 base) is judged absolutely
@@ -202,7 +206,7 @@ def run_case(case, ctx):
         return
     lin = float((M @ z - sz.reshape(-1).to(torch.float64)).abs().max()) / math.sqrt(scale)
     if not lin <= 1e4 * eps * max(1.0, math.sqrt(min(kappa, 1e8))):
-        ctx.fail("linear_in_the_noise", "value", err=lin, **dict(kw, tags=set(tags) | {"path:" + pathk}))
+        ctx.fail("linear_in_the_noise", "value", err=lin, **dict(kw, tags=set(tags) | {"path:" + pathk} | (_degenerate(spec) if used_lanczos else set())))
         return
     ctx.ok("linear_in_the_noise", key, n >= 2)
     Bn = 1
@@ -246,7 +250,7 @@ def run_case(case, ctx):
             return
         ctx.stat("lanczos_root_spans_whole_space" if full else "lanczos_root_spans_a_subspace(compression judged)")
     if not err <= tol:
-        ctx.fail("covariance_of_the_map", "value", err=err, detail=f"M M^T vs I_k (x) blockdiag(A_b): err {err:.2e} tol {tol:.1e} ({pathk}, noise {nz0.shapes})", **dict(kw, tags=set(tags) | {"path:" + pathk}))
+        ctx.fail("covariance_of_the_map", "value", err=err, detail=f"M M^T vs I_k (x) blockdiag(A_b): err {err:.2e} tol {tol:.1e} ({pathk}, noise {nz0.shapes})", **dict(kw, tags=set(tags) | {"path:" + pathk} | (_degenerate(spec) if used_lanczos else set())))
         return
     ctx.ok("covariance_of_the_map", key, n >= 2, sample=dict(spec=zoo.class_path(spec, 3), path=pathk, k=k, noise_shapes=[list(s) for s in nz0.shapes],
                                                              aux_draws=[list(s) for s in nz0.aux_shapes], sampler_calls=tot + 2, err=err))
